@@ -4,14 +4,19 @@ Part A (kind="legacy-theory" / "legacy-operator"): synthetic flat legacy runcard
 PTO x QED x HQ (outer) x {coupling spellings, QED reference, matching ratios, nfref, PTO_matching,
 MSbar reference scales} resp. {ModEv spellings, ModSV, nf0, Q0, grid spelling, ratios} (inner,
 complete products) through `eko.io.runcards.Legacy`; oracle = the field-mapping table below,
-written from the meaning of the legacy keys, not from the converter.
+written from the meaning of the legacy keys, not from the converter. Each inner product is united with
+the complete product of further settings at its base point: theory {6 spellings of the electromagnetic
+coupling, n3lo_ad_variation key, use_fhmruvv key}; operator {backward_inversion of the operator card,
+grid as list / generator spec, log flag, polarised / time-like, degree}.
 
 Part B (kind="archive"): a current EKO is created with known cards and operators, then rewritten
 into the on-disk layout of v0.13 ("data version 1") resp. v0.14 ("data version 2") by the
 inverse of the documented format change (couplings.ref <- scale + num_flavs_ref, init <- mu0 +
 heavy.num_flavs_init, metadata.xgrid <- bases.xgrid, use_fhmruvv <- use_fhmv, no matching_order in
 v0.13), re-tarred and read with `EKO.read`; the structures it presents must carry the settings the
-archive was made from, and the operators bit for bit.
+archive was made from, and the operators bit for bit; the metadata keep the writing version and get
+data version 1 resp. 2. Also: v0.13 files without the use_fhmv key, version strings with post / rc /
+dev / local segments, and old-layout files of versions without a patch (refusal or correct settings).
 """
 
 import copy
@@ -70,6 +75,15 @@ TH_INNER = dict(
     qm=["same", "other"],
     xif=[1.0, 2.0],
 )
+# further theory settings that the converter maps; explored as a complete product of their own at the base point of
+# TH_INNER (first value of every dimension): the union of the two sub-products is enumerated, not their product
+N3LO_VAR = [1, 2, 3, 1, 2, 3, 1]
+TH_EXTRA = dict(
+    # spelling of the electromagnetic coupling: a key holding None carries no setting
+    alpha_key=["alphaqed", "alphaem", "none", "qed-None+em", "em-None+qed", "both-equal"],
+    n3lo=["absent", N3LO_VAR],
+    fhm=["absent", False, True],
+)
 OP_INNER = dict(
     modev=list(MODEV),
     modsv=list(MODSV),
@@ -78,19 +92,45 @@ OP_INNER = dict(
     spelling=["mugrid", "Q2grid", "mu2grid"],
     ratios=RATIOS,
 )
+# further operator-card settings (complete product of their own at the base point of OP_INNER)
+#  inversion: where the legacy cards keep `backward_inversion` - the legacy operator table (ekomark/data/db.py,
+#             ekomark/data/operators.py default_card) holds it, the theory table never did
+#  grid:      plain list or one of the generator spellings of XGrid.fromcard (observation only: refusal tolerated)
+OP_EXTRA = dict(
+    inversion=["operator:expanded", "operator:exact", "absent"],
+    grid=["list", "make_grid", "lambertgrid"],
+    is_log=[True, False],
+    flags=[[False, True], [True, False]],
+    degree=[3, 1],
+)
+GRID_SPEC = {"list": [1e-3, 1e-2, 0.1, 0.5, 1.0], "make_grid": ["make_grid", 4, 3], "lambertgrid": ["lambertgrid", 6]}
 # linear target scales: below charm, between, exactly on the bottom wall for ratio 1 (4.5), above top
 MUS = [1.0, 2.0, 4.5, 10.0, 100.0, 400.0]
 
 
 def legacy_theory(pto, qed, hq, alpha_key="alphaqed", qedref="absent", ratios=RATIOS[0], nfref=5,
-                  pto_matching="absent", qm="same", xif=1.0, modev="EXA", modsv=None, nf0=None, q0=1.65):
+                  pto_matching="absent", qm="same", xif=1.0, modev="EXA", modsv=None, nf0=None, q0=1.65, n3lo="absent",
+                  fhm="absent"):
     t = dict(
         ID=7, PTO=pto, QED=qed, FNS="ZM-VFNS", DAMP=0, IC=0, IB=0, ModEv=modev, ModSV=modsv, XIR=1.0, XIF=xif,
         NfFF=5, MaxNfAs=6, MaxNfPdf=6, Q0=q0, alphas=0.118, Qref=QREF, nf0=nf0, nfref=nfref, SxRes=0, SxOrd="LL",
         HQ=hq, mc=MASSES[0], mb=MASSES[1], mt=MASSES[2], kcThr=ratios[0], kbThr=ratios[1], ktThr=ratios[2],
         Comments="synthetic",
     )
-    t[alpha_key] = 0.0078125
+    if alpha_key in ("alphaqed", "alphaem"):
+        t[alpha_key] = 0.0078125
+    elif alpha_key == "qed-None+em":
+        t["alphaqed"], t["alphaem"] = None, 0.0078125
+    elif alpha_key == "em-None+qed":
+        t["alphaqed"], t["alphaem"] = 0.0078125, None
+    elif alpha_key == "both-equal":
+        t["alphaqed"], t["alphaem"] = 0.0078125, 0.0078125
+    elif alpha_key != "none":
+        raise ValueError(alpha_key)
+    if n3lo != "absent":
+        t["n3lo_ad_variation"] = list(n3lo)
+    if fhm != "absent":
+        t["use_fhmruvv"] = fhm
     qms = list(MASSES) if qm == "same" else [2.0, 5.0, 160.0]
     t["Qmc"], t["Qmb"], t["Qmt"] = qms
     if qedref == "same":
@@ -102,13 +142,17 @@ def legacy_theory(pto, qed, hq, alpha_key="alphaqed", qedref="absent", ratios=RA
     return t
 
 
-def legacy_operator(spelling="mugrid", mus=MUS):
+def legacy_operator(spelling="mugrid", mus=MUS, inversion="operator:expanded", grid="list", is_log=True, flags=(False, True), degree=3):
     o = dict(
-        interpolation_xgrid=[1e-3, 1e-2, 0.1, 0.5, 1.0], interpolation_polynomial_degree=3, interpolation_is_log=True,
+        interpolation_xgrid=list(GRID_SPEC[grid]), interpolation_polynomial_degree=degree, interpolation_is_log=is_log,
         ev_op_max_order=7, ev_op_iterations=4, backward_inversion="expanded", n_integration_cores=2,
-        debug_skip_non_singlet=False, debug_skip_singlet=True, polarized=False, time_like=True,
+        debug_skip_non_singlet=False, debug_skip_singlet=True, polarized=flags[0], time_like=flags[1],
         inputgrid=None, targetgrid=None, inputpids=None, targetpids=None,
     )
+    if inversion == "absent":
+        del o["backward_inversion"]
+    else:
+        o["backward_inversion"] = inversion.split(":")[1]
     if spelling == "mugrid":
         o["mugrid"] = list(mus)
     else:
@@ -143,9 +187,17 @@ def _chk(res, sig, where, name, got, want, tol=0.0):
 def eval_legacy_theory(case):
     from eko.io.runcards import Legacy
 
+    import dataclasses
+
+    from eko.io.runcards import TheoryCard
+
     res = Result()
     n = 0
-    for inner in cn_product(TH_INNER):
+    base = {k: v[0] for k, v in TH_INNER.items()}
+    inners = [dict(i, n3lo="absent", fhm="absent") for i in cn_product(TH_INNER)]
+    inners += [i for i in (dict(base, **x) for x in cn_product(TH_EXTRA)) if i not in inners]
+    fhm_default = {f.name: f.default for f in dataclasses.fields(TheoryCard)}["use_fhmruvv"]
+    for inner in inners:
         if case["hq"] == "POLE" and inner["qm"] == "other":
             continue  # reference scales are unused for pole masses
         t = legacy_theory(case["pto"], case["qed"], case["hq"], **inner)
@@ -159,7 +211,15 @@ def eval_legacy_theory(case):
         S = "Legacy.new_theory"
         _chk(res, S, where, "order", new.order, [case["pto"] + 1, case["qed"]])
         _chk(res, S, where, "couplings.alphas", new.couplings.alphas, 0.118)
-        _chk(res, S, where, "couplings.alphaem", new.couplings.alphaem, 0.0078125)
+        if inner["alpha_key"] != "none":
+            _chk(res, S, where, "couplings.alphaem", new.couplings.alphaem, 0.0078125)
+        elif case["qed"] == 0:
+            # no electromagnetic coupling given and none needed: the neutral value (with QED > 0 the card is incomplete)
+            _chk(res, S, where, "couplings.alphaem", new.couplings.alphaem, 0.0)
+        # N3LO anomalous-dimension variation: a card without the key asks for the central one
+        _chk(res, S, where, "n3lo_ad_variation", new.n3lo_ad_variation, [0] * 7 if inner["n3lo"] == "absent" else N3LO_VAR)
+        # a card that says nothing about the N3LO parametrisation gets the documented default of the current card
+        _chk(res, S, where, "use_fhmruvv", new.use_fhmruvv, fhm_default if inner["fhm"] == "absent" else inner["fhm"])
         _chk(res, S, where, "couplings.ref", new.couplings.ref, [QREF, inner["nfref"]])
         _chk(res, S, where, "couplings.em_running", new.couplings.em_running, inner["qedref"] == "same")
         qms = MASSES if inner["qm"] == "same" else [2.0, 5.0, 160.0]
@@ -180,19 +240,34 @@ def eval_legacy_theory(case):
 def eval_legacy_operator(case):
     from eko.io.runcards import Legacy
 
+    from eko import interpolation
+
     res = Result()
     n = 0
+    spec_refused = 0
     maxdev = 0.0
-    for inner in cn_product(OP_INNER):
+    base = {k: v[0] for k, v in OP_INNER.items()}
+    xbase = {k: v[0] for k, v in OP_EXTRA.items()}
+    inners = [dict(i, **xbase) for i in cn_product(OP_INNER)]
+    inners += [i for i in (dict(base, **x) for x in cn_product(OP_EXTRA)) if i not in inners]
+    want_grids = {
+        "list": GRID_SPEC["list"], "make_grid": interpolation.make_grid(4, 3).tolist(), "lambertgrid": interpolation.lambertgrid(6).tolist(),
+    }
+    for inner in inners:
         t = legacy_theory(
             case["pto"], case["qed"], case["hq"], ratios=inner["ratios"], modev=inner["modev"], modsv=inner["modsv"],
             nf0=inner["nf0"], q0=inner["q0"],
         )
-        o = legacy_operator(inner["spelling"])
+        o = legacy_operator(inner["spelling"], inversion=inner["inversion"], grid=inner["grid"], is_log=inner["is_log"], flags=inner["flags"], degree=inner["degree"])
         where = f"legacy cards PTO={case['pto']} QED={case['qed']} HQ={case['hq']} {inner}"
         try:
             new = Legacy(copy.deepcopy(t), copy.deepcopy(o)).new_operator
         except Exception as exc:  # noqa
+            if inner["grid"] != "list" and isinstance(exc, ValueError):
+                # a generator spec in a legacy card: whether the old format allowed it is not established, so a clean
+                # refusal is only counted (see assumptions); if it is converted, every row below applies
+                spec_refused += 1
+                continue
             res.fail("Legacy.new_operator/raises", f"{where}: {type(exc).__name__}: {exc}")
             continue
         n += 1
@@ -209,20 +284,33 @@ def eval_legacy_operator(case):
                     res.fail(f"{S}/mugrid-scale/{inner['spelling']}", f"{where}: scale {mu!r}, legacy grid means {want!r}")
                 if nf != ref_nf(want, inner["ratios"]):
                     res.fail(f"{S}/mugrid-nf", f"{where}: scale {want} got nf={nf}, default flow gives {ref_nf(want, inner['ratios'])}")
-        if np.asarray(new.xgrid.raw).tobytes() != np.asarray(o["interpolation_xgrid"], dtype=float).tobytes():
+        if np.asarray(new.xgrid.raw).tobytes() != np.asarray(want_grids[inner["grid"]], dtype=float).tobytes():
             res.fail(f"{S}/xgrid", f"{where}: {new.xgrid.raw.tolist()} vs {o['interpolation_xgrid']}")
+        _chk(res, S, where, "xgrid.log", bool(new.xgrid.log), inner["is_log"])
         c = new.configs
+        if inner["inversion"] != "absent":
+            # the legacy operator card names the method of the backward matching
+            want_inv = inner["inversion"].split(":")[1].upper()
+            got_inv = _enum_name(c.inversion_method)
+            if (want_inv, got_inv) == ("EXACT", "EXPANDED"):
+                # the one recorded wrong behaviour: the key of the operator card is not read, the default comes out
+                res.fail(
+                    f"{S}/inversion_method/operator-card-key-ignored",
+                    f"{where}: legacy operator card has backward_inversion='exact', new inversion_method = {got_inv!r}",
+                )
+            else:
+                _chk(res, S, where, "inversion_method", got_inv, want_inv)
         _chk(res, S, where, "evolution_method", _enum_name(c.evolution_method), MODEV[inner["modev"]])
         _chk(res, S, where, "scvar_method", _enum_name(c.scvar_method), MODSV[inner["modsv"]])
         _chk(res, S, where, "ev_op_max_order", c.ev_op_max_order, [7, case["qed"]])
         _chk(res, S, where, "ev_op_iterations", c.ev_op_iterations, 4)
-        _chk(res, S, where, "interpolation_polynomial_degree", c.interpolation_polynomial_degree, 3)
-        _chk(res, S, where, "interpolation_is_log", c.interpolation_is_log, True)
-        _chk(res, S, where, "polarized", c.polarized, False)
-        _chk(res, S, where, "time_like", c.time_like, True)
+        _chk(res, S, where, "interpolation_polynomial_degree", c.interpolation_polynomial_degree, inner["degree"])
+        _chk(res, S, where, "interpolation_is_log", c.interpolation_is_log, inner["is_log"])
+        _chk(res, S, where, "polarized", c.polarized, inner["flags"][0])
+        _chk(res, S, where, "time_like", c.time_like, inner["flags"][1])
         _chk(res, S, where, "debug.skip_singlet", new.debug.skip_singlet, True)
         _chk(res, S, where, "debug.skip_non_singlet", new.debug.skip_non_singlet, False)
-    res.info = {"max_inner_points": n, "max_scale_reldev": maxdev}
+    res.info = {"max_inner_points": n, "max_scale_reldev": maxdev, "max_generator_spec_grids_refused": spec_refused}
     res.outcome = "legacy-operator:" + ("ok" if not res.fails else "fails")
     return res
 
@@ -235,6 +323,10 @@ def cn_product(dims):
 
 # =============================================================================== part B
 VERSIONS = {"v1": ["0.13.5", "0.13.0"], "v2": ["0.14.0", "0.14.6"]}
+# version strings with post / pre-release / local segments (Metadata.load decides on major.minor of the parsed version)
+VERSIONS_ODD = {"v1": ["0.13.5.post1", "0.13.2+g1234abc"], "v2": ["0.14.3rc1", "0.14.6+g1234abc", "0.14.0.dev3"]}
+# old-layout archives of versions for which no patch exists: a clean refusal is demanded, not a half-converted object
+VERSIONS_FOREIGN = ["0.12.3", "0.15.0"]
 AR_ORDERS = [[1, 0], [2, 0], [3, 0], [4, 0], [2, 1]]
 AR_KEYS = {
     0: [],
@@ -260,7 +352,7 @@ def _archive_cfg(order, scheme, nf_init, fhm, mo="default"):
     return cfg
 
 
-def to_legacy_layout(root, which, version, extra_bases, drop_cores):
+def to_legacy_layout(root, which, version, extra_bases, drop_cores, fhm_key=True):
     """Rewrite theory.yaml / operator.yaml / metadata.yaml of an extracted current EKO in the old layout."""
     import yaml
 
@@ -278,6 +370,8 @@ def to_legacy_layout(root, which, version, extra_bases, drop_cores):
     if which == "v1":
         th.pop("matching_order")  # did not exist: matching was done at the order of the evolution
         th["use_fhmv"] = th.pop("use_fhmruvv")
+        if not fhm_key:
+            th.pop("use_fhmv")  # files written before the key existed
     # operator: initial scale only, its flavour number was heavy.num_flavs_init
     op["mu0"] = op.pop("init")[0]
     if drop_cores:
@@ -322,7 +416,7 @@ def eval_archive(case):
         e = None
         with tarfile.open(path) as tar:
             tar.extractall(work, filter="data")
-        to_legacy_layout(work, which, case["version"], case["extra_bases"], case["drop_cores"])
+        to_legacy_layout(work, which, case["version"], case["extra_bases"], case["drop_cores"], case.get("fhm_key", True))
         with tarfile.open(legacy, "w") as tar:
             tar.add(work, arcname=".")
         try:
@@ -332,9 +426,16 @@ def eval_archive(case):
             md = e2.metadata
             keys = [(float(a), int(b)) for a, b in e2]
         except Exception as exc:  # noqa
+            if case.get("foreign"):
+                # no patch exists for this version: refusing the archive is the demanded behaviour
+                res.outcome = f"{which}:foreign-version:refused"
+                res.info = {"max_points": 0, "refused_with": type(exc).__name__}
+                return res
             res.fail(f"{S}/read-raises", f"{where}: {type(exc).__name__}: {str(exc)[:300]}")
             res.outcome = f"{which}:read-raises"
             return res
+        if case.get("foreign"):
+            S = f"{which}-archive/foreign-version-accepted"  # it was read: then every setting must still be right
         # ---- theory: the mapping table
         T = f"{S}/theory"
         _chk(res, T, where, "order", nth.order, cfg["order"])
@@ -347,7 +448,11 @@ def eval_archive(case):
         _chk(res, T, where, "heavy.matching_ratios", list(nth.heavy.matching_ratios), [1.0, 2.0, 0.5])
         _chk(res, T, where, "xif", nth.xif, 0.5)
         _chk(res, T, where, "n3lo_ad_variation", nth.n3lo_ad_variation, [0, 1, 0, 2, 0, 3, 0])
-        _chk(res, T, where, "use_fhmruvv", nth.use_fhmruvv, case["fhm"])
+        if case.get("fhm_key", True):
+            _chk(res, T, where, "use_fhmruvv", nth.use_fhmruvv, case["fhm"])
+        elif type(nth.use_fhmruvv) is not bool:
+            # a file without the key: io/v1.py supports v0.13.5 only, so just a definite value is demanded
+            res.fail(f"{T}/use_fhmruvv", f"{where}: key absent in the file, loaded as {nth.use_fhmruvv!r}")
         # v0.13 had no separate matching order: matching conditions were taken at the order of the
         # evolution, i.e. (order_qcd - 1, 0) in today's convention; v0.14 stored it
         want_mo = [cfg["order"][0] - 1, 0] if which == "v1" else list(th.matching_order)
@@ -371,6 +476,11 @@ def eval_archive(case):
         # ---- metadata
         M = f"{S}/metadata"
         _chk(res, M, where, "origin", md.origin, [1.65**2, case["nf_init"]])
+        # the library version that wrote the file stays; the data version is the one struct.theory_card / operator_card
+        # dispatch on (1: v0.13 layout, 2: v0.14 layout)
+        _chk(res, M, where, "version", md.version, case["version"])
+        if not case.get("foreign"):
+            _chk(res, M, where, "data_version", md.data_version, 1 if which == "v1" else 2)
         if np.asarray(md.xgrid.raw).tobytes() != np.asarray(AR_GRID).tobytes():
             res.fail(f"{M}/xgrid", f"{where}: {md.xgrid.raw.tolist()}")
         # ---- evolution points and operators
@@ -434,21 +544,59 @@ def run(ctx):
             for inner in cn_product(dims):
                 for mo in ["default"] if which == "v1" else ["default", "lower"]:
                     cases.append(dict(kind="archive", which=which, version=version, order=order, scheme=scheme, mo=mo, **inner))
+    n_base = len(cases) - n_cards
+    base = dict(nf_init=4, fhm=True, nkeys=3, extra_bases=True, drop_cores=False)
+    mos = {"v1": ["default"], "v2": ["default", "lower"]}
+    extra = []
+    # initial flavour number 3 with reference flavour number 5: distinguishes num_flavs_init from num_flavs_ref and from the default 4
+    if not ctx.thorough():
+        for which in ("v1", "v2"):
+            for version, order, scheme, mo in itertools.product(VERSIONS[which], AR_ORDERS, ["POLE", "MSBAR"], mos[which]):
+                extra.append(dict(kind="archive", which=which, version=version, order=order, scheme=scheme, mo=mo, **dict(base, nf_init=3)))
+    # v0.13 files written before the use_fhmv key existed
+    for version, order, scheme in itertools.product(VERSIONS["v1"] if ctx.thorough() else VERSIONS["v1"][:1], AR_ORDERS, ["POLE", "MSBAR"]):
+        extra.append(dict(kind="archive", which="v1", version=version, order=order, scheme=scheme, mo="default", fhm_key=False, **base))
+    # version strings with further segments; versions without a patch
+    for which in ("v1", "v2"):
+        for version, order, mo in itertools.product(VERSIONS_ODD[which], AR_ORDERS if ctx.thorough() else [[2, 0], [4, 0]], mos[which][:1]):
+            extra.append(dict(kind="archive", which=which, version=version, order=order, scheme="POLE", mo=mo, **dict(base, nf_init=3)))
+    for (which, version), scheme in itertools.product(zip(("v1", "v2"), VERSIONS_FOREIGN), ["POLE", "MSBAR"]):
+        extra.append(dict(kind="archive", which=which, version=version, order=[2, 0], scheme=scheme, mo="default", foreign=True, **base))
+    cases += extra
     results = ctx.run_cases(cases, evaluate)
     inner = sum((r[1][3] or {}).get("max_inner_points", 0) for r in results)
     ctx.rule = (
         f"legacy runcards: PTO 0-3 x QED 0-2 x HQ POLE/MSBAR, each with the complete inner product of theory settings "
         f"({len(list(cn_product(TH_INNER)))}: coupling key, QED reference, ratios, nfref, PTO_matching, MSbar references, XIF) and of "
         f"operator settings ({len(list(cn_product(OP_INNER)))}: {len(MODEV)} ModEv spellings, 3 ModSV, nf0, Q0 below/on/above a wall, 3 grid "
-        f"spellings, ratios; 6 target scales each) = {inner} conversions; archives: {len(cases) - n_cards} synthetic v0.13 / v0.14 "
+        f"spellings, ratios; 6 target scales each), each united with the complete product of the further settings at the base point "
+        f"(theory {len(list(cn_product(TH_EXTRA)))}: 6 spellings of the electromagnetic coupling incl. none / None-valued / both, N3LO variation key, "
+        f"use_fhmruvv key; operator {len(list(cn_product(OP_EXTRA)))}: backward_inversion in the operator card / absent, grid as list or generator spec, "
+        f"log flag, polarised/time-like, degree) = {inner} conversions; archives: {n_base} synthetic v0.13 / v0.14 "
         "archives over 2 version strings x 5 orders x 2 schemes x "
         + ("{nf_init, fhm flag, 0/1/3 operators, bases layout, n_integration_cores key}" if ctx.thorough() else "fhm flag (3 operators)")
-        + "; non-trivial = all"
+        + f" + {len(extra)} further ones ("
+        + ("" if ctx.thorough() else "initial nf 3 with reference nf 5; ")
+        + "v0.13 files without the use_fhmv key; version strings with post / rc / dev / local segments; old-layout files of versions "
+        "0.12 / 0.15 for which no patch exists: refusal or correct settings); metadata version / data_version asserted; non-trivial = all"
     )
     ctx.assumptions += [
         "legacy layout of v0.13 / v0.14 archives reconstructed from eko/io/v1.py, v2.py, metadata.py (no genuine file offline)",
         "a v0.13 archive's implicit matching order is (order_qcd - 1, 0), as TheoryCard's documented default and Legacy assume",
         "em_running of a legacy card is checked only where unambiguous (no Qedref / Qedref == Qref / Qedref far from Qref)",
         "default flavour number = 3 + number of (m k)^2 <= mu^2; MSbar masses taken at their own scale for this purpose",
-        "not asserted: backward_inversion, n_integration_cores, ev_op_max_order given as a list (see report)",
+        "backward_inversion is a key of the legacy OPERATOR card (ekomark/data/db.py Operator.backward_inversion, default_card); "
+        "a legacy card without the key, or with the key in the theory card, is not asserted",
+        "not asserted: n_integration_cores; ev_op_max_order given as a list (the legacy operator table declares it Integer: "
+        "not an input of the old format); a legacy theory card without the ModSV key (banana's theory cards always carry it, "
+        "default None; the meaning of its absence is not determined by the property)",
+        "a legacy interpolation_xgrid given as a generator spec (['make_grid', n, m] / ['lambertgrid', n], the input of XGrid.fromcard) "
+        "may be refused with a ValueError (counted in max_generator_spec_grids_refused): that the old format allowed the spelling is "
+        "not established; if it is converted, the generated grid is demanded",
+        "electromagnetic coupling: a key holding None carries no setting; alphaqed and alphaem both present with different values "
+        "is not explored (ambiguous); with no coupling at all the neutral value 0 is demanded for QED = 0 only",
+        "a legacy theory card without use_fhmruvv gets the documented default of the current TheoryCard; without n3lo_ad_variation the central one",
+        "couplings.ref of a legacy card with nfref = None is accepted as (Qref, None): the table states the legacy meaning literally, "
+        "whether a current card needs a number there is not decided here",
+        "a v0.13 file without the use_fhmv key must load with a definite bool (io/v1.py declares only v0.13.5 supported: the value is not asserted)",
     ]
